@@ -26,14 +26,22 @@ MANIFEST = {
             "fair_step_decreases_stale_when_acknowledged (fairness stated on the queue, not on the counter); "
             "reset_leaves_other_clients / give_up_leaves_other_clients / ack_leaves_other_clients (the receive path of a Reset "
             "or ACK of client c and coap_handle_failed_notify for c leave session object, queued notifications and observer "
-            "entries of every other client exactly as they were); the observation's "
+            "entries of every other client exactly as they were); the observer's TOKEN (Model/ObserveToken.lean: binaryEqual = "
+            "transcription of coap_binary_equal, length first, then memcmp; M's token is the injective encoding tokNat of the token "
+            "bytes): binary_equal_exact, token_identity_exact, token_compare_is_binary_equal / token_compare_queue_is_binary_equal "
+            "(M's lookups in coap_find_observer, coap_remove_failed_observers, coap_cancel_all_messages ARE coap_binary_equal on "
+            "the bytes), prefix_token_is_other_observer (the empty token or a proper prefix of an entry's token does not name that "
+            "entry), other_token_survives_delete / _cancel_request / _reset / _failed_notify (whatever ends the observation under "
+            "token t leaves the same client's entries under every other token u untouched, all fields), registration_lists_token, "
+            "registration_under_new_token_adds; the observation's "
             "identity = M's transcription of coap_cache_derive_key_w_ignore(..., {ETag, OSCORE}) over the request's option "
             "list (Model/ObserveKey.lean): observation_identity_ignores(_etag) (ETag, OSCORE, Observe and NoCacheKey options "
             "never change the key), observation_identity_exact (equal keys <=> equal cache-key options: numbers, lengths, "
             "values, order), reregistration_same_target_replaces (run level: never two entries of a session whose requests "
             "have the same cache-key options, whatever tokens/ETags), registration_of_other_target_keeps. M is tied to the "
             "compiled code by exact trace equality on an H-sim harness (real server context, 1..3 resources, 1..4 real client "
-            "contexts whose token values are per-client or shared between clients, requests with and without ETag / Size1 "
+            "contexts whose token values are per-client or shared between clients and 0..8 bytes long - the empty token, tokens "
+            "that are proper prefixes of one another or differ in trailing zero bytes only -, requests with and without ETag / Size1 "
             "options, virtual clock, scripted network): every datagram, every subscriber list, counter, flag, session "
             "ref/con_active/tx_mid and send-queue deadline after every event; the implementation's trace is in addition "
             "judged directly against the property by an oracle that never looks at M.",
@@ -82,13 +90,24 @@ REQUIRED_THEOREMS = ["reregistration_replaces", "observe_strictly_increasing", "
                      "digestInput_aliased_before_fix", "con_active_eq_queued", "con_active_eq_queued_init",
                      "cancel_leaves_other_sessions", "latest_eventually_notified_when_acknowledged",
                      "fair_step_decreases_stale_when_acknowledged", "reset_leaves_other_clients",
-                     "give_up_leaves_other_clients", "ack_leaves_other_clients"]
+                     "give_up_leaves_other_clients", "ack_leaves_other_clients",
+                     # the token is the whole byte string (length included)
+                     "binary_equal_exact", "token_identity_exact", "token_compare_is_binary_equal",
+                     "token_compare_queue_is_binary_equal", "prefix_token_is_other_observer", "other_token_survives_delete",
+                     "other_token_survives_cancel_request", "other_token_survives_reset", "other_token_survives_failed_notify",
+                     "registration_lists_token", "registration_under_new_token_adds"]
 RULE = ("event histories (8..90 events + optional fair tail) over 1..3 observable resources (default / NOTIFY_CON / NOTIFY_NON / "
         "NOTIFY_NON_ALWAYS, Observe counter started at 0, mid-range, and just below 2^23 / 2^24 so that it wraps) and 1..4 real "
         "clients: register / re-register (same token, other token same query, other query; query variants none, a=1, b=2, a&b and "
         "one option with the bytes 61 0f 00 62; 30 % of the requests carry options outside the observation's identity: one or two "
         "ETags, Size1) / Observe=1 cancel / plain GET with CON and NON requests; token values drawn per history from a pool that is "
-        "per-client, shared between clients (equal bytes whichever client sends them) or mixed; bursts of changes between I/O steps, I/O steps, time advances across every retransmission deadline and "
+        "per-client, shared between clients (equal bytes whichever client sends them), mixed, or made of tokens of DIFFERENT LENGTHS "
+        "(0..8 bytes: prefixes of one 8-byte string, the empty token included; four such strings, one all zero bytes, two extending "
+        "the classic 2-byte tokens) - about 30 % of the general histories; about 8 % are token-length histories (each client holds "
+        "2..4 observations at once on different resources / queries under tokens that are prefixes of one another, then Observe=1 "
+        "with the token and target of one of them, Observe=1 / plain GET with a shorter or longer unused token for an unobserved "
+        "target, refresh, new observation under a shorter / longer token, re-registration of a target under another token, ACK, "
+        "Reset, refused refresh, changes, fair tail); bursts of changes between I/O steps, I/O steps, time advances across every retransmission deadline and "
         "the idle session timeout, ACK or RST of the k-th most recent notification (never = loss, later = delay, again = "
         "duplicate), handler starts answering 4.04, server-side session loss, resource deletion; about 12 % of the histories use a "
         "resource whose representation needs block-wise transfer (body of 2.5 blocks at SZX none/0/1/2/4/6, default or NOTIFY_CON "
@@ -107,6 +126,8 @@ TRUSTED_BASE = ["Lean 4.33 kernel; axioms allowed: propext, Classical.choice, Qu
                 "M (CoapVerif/Model/Observe.lean) is a hand transcription; checked against the compiled code only on the cases run",
                 "Driver/Observe.lean reqOpts: the option list of each scripted request, written to mirror send_request() of harness/observe.c "
                 "(a mismatch shows as a tie break on the lines with ETag / Size1 / query variants)",
+                "Driver/Observe.lean tokenBytes / harness/observe.c tok_bytes / props/c11_oracle.py tok_of: three copies of the table token "
+                "index -> token bytes (a mismatch shows as a tie break / foreign-token on the first line that uses the index)",
                 "Driver/Observe.lean answers block-wise lines with a fixed marker instead of a replay (recognised from the input line)"]
 ASSUMPTIONS = ["SHA-256 is injective on the byte strings libcoap feeds it for the observe cache key (M stands for the digest by an injective "
                "encoding of that byte string; that the byte string determines the cache-key options is a theorem); GET only (the "
@@ -213,6 +234,15 @@ def note_index(rng):
 # token indices a history draws from: < 128 = a value only that client uses, >= 128 = the SAME value for every client (tokens
 # are unique per client endpoint only, so two clients may well pick equal ones: an observer is (client, token))
 TOKEN_POOLS = [[1, 1, 1, 2, 3]] * 5 + [[128, 128, 128, 129, 1]] * 3 + [[1, 2, 128, 129, 130], [128], [255, 127, 128, 0]]
+# token indices >= 256: tokens of 0..8 bytes, t = 256 + 9*f + len = the first len bytes of family f (harness/observe.c tok_bytes):
+# the empty token, tokens that are proper prefixes of one another, tokens that differ in trailing zero bytes only, prefixes and
+# extensions of the classic 2-byte tokens a001 (f=2) and 9f80 (f=3).  A token is the whole byte string, length included.
+TOKEN_POOLS += [[256, 257, 258, 260, 264], [265, 266, 267, 268, 273], [1, 274, 275, 276, 277], [128, 284, 285, 286, 287],
+                [1, 2, 257, 258, 128]]
+
+
+def tlen_tok(f, n):
+    return 256 + 9 * f + n
 QUERIES = [0, 0, 0, 0, 1, 1, 2, 2, 3, 4]      # 3 = ?a&b (two options), 4 = one option with the bytes a 0f 00 b: distinct targets
 EXTRAS = [0] * 7 + [1, 1, 2, 3, 4, 5]         # options that are not part of the observation's identity: ETag(s), Size1 (NoCacheKey)
 
@@ -292,6 +322,125 @@ def gen_interference_history(rng):
         evs += ["chg:%d" % rng.choice(obs)[1], "io"]
     if rng.random() < 0.8:
         for _ in range(2):
+            for c in range(ncli):
+                for k in range(8):
+                    evs.append("ack:%d:%d" % (c, 1000 + k))
+        evs += ["io", "io", "io"]
+    return "obs st=%d R=%s C=%d %s" % (st, rs, ncli, " ".join(evs))
+
+
+TOKEN_LENGTH_SHARE = 0.08      # share of the histories built around tokens of DIFFERENT LENGTHS of one client (prefixes, the empty token)
+
+
+def gen_token_length_history(rng):
+    """One to three clients, each with several observations at once (different resources / query variants) whose tokens are
+    prefixes of ONE 8-byte string — lengths 0..8, the empty token included, neighbours in length preferred — plus now and then a
+    classic 2-byte token.  Then, round by round: changes, I/O, and one of: Observe=1 with the token AND target of one observation
+    (only that one ends); Observe=1 with a shorter / longer token of the family for a target nobody observes (nothing ends);
+    refresh under the same token; a NEW observation under a still unused shorter / longer token (must be added); re-registration
+    of a target under another token of the family (replaces that one only); ACK / Reset of a recent notification; silence until the server gives up on a
+    Confirmable notification; an error response to a request with one of the tokens.  Whatever names one token must leave the observations under every other token
+    of the client alone: a token is the whole byte string, its length included.  The generator keeps every token on at most one
+    target at a time so that the oracle's registry stays unambiguous."""
+    st = rng.choice([30, 30, 300])
+    nres = rng.choice([1, 1, 2, 3])
+    ncli = rng.choice([1, 1, 2, 3])
+    modes = [rng.choice("dddnncca") for _ in range(nres)]
+    rs = ",".join("%s%d" % (m, rng.choice(STARTS)) for m in modes)
+    fam = rng.randrange(4)
+    n0 = rng.choice([0, 0, 0, 1, 1, 2, 3, 5])
+    lens = sorted(set([n0, n0 + 1] + [rng.randrange(0, 9) for _ in range(rng.choice([0, 1, 2, 3]))]))
+    pool = [tlen_tok(fam, n) for n in lens]
+    if rng.random() < 0.3:
+        pool.append(rng.choice([1, 2, 128]))
+    mids = [rng.randrange(0, 65536) for _ in range(ncli)]
+    targets = [(r, q) for r in range(nres) for q in (0, 1, 2, 3)]
+    held = {}          # (c, token bytes) -> (r, q, t): what the scripted part believes is registered
+    evs = []
+
+    def mid(c):
+        mids[c] = (mids[c] + 1) % 65536
+        return mids[c]
+
+    def req(op, c, r, t, q, x=0):
+        evs.append("%s:%d:%d:%d:%d:%s:%d%s" % (op, c, r, t, q, rng.choice("CCN"), mid(c), ":%d" % x if x else ""))
+
+    def free_tokens(c):
+        return [t for t in pool if (c, O.tok_of(c, t)) not in held]
+
+    def free_targets(c):
+        taken = set((v[0], v[1]) for k, v in held.items() if k[0] == c)
+        return [x for x in targets if x not in taken]
+
+    def register_new(c):
+        ft, fx = free_tokens(c), free_targets(c)
+        if not ft or not fx:
+            return False
+        t = rng.choice(ft)
+        r, q = rng.choice(fx)
+        req("reg", c, r, t, q, rng.choice(EXTRAS))
+        held[(c, O.tok_of(c, t))] = (r, q, t)
+        return True
+
+    for c in range(ncli):
+        for _ in range(rng.choice([2, 2, 3, 4])):
+            register_new(c)
+    for _ in range(rng.choice([2, 3, 4, 6])):
+        for r in range(nres):
+            if rng.random() < 0.7:
+                evs += ["chg:%d" % r] * rng.choice([1, 1, 2])
+        evs.append(rng.choice(["io", "io", "io", "adv:100", "adv:2000"]))
+        if rng.random() < 0.15:
+            # nobody answers: a Confirmable notification under ONE of the tokens is retransmitted until the server gives up
+            # (coap_handle_failed_notify names that token only); `held` keeps its entries (see the Reset case below)
+            evs += ["adv:2000", "adv:4000", "adv:8000", "adv:16000", "adv:32000", "adv:1"][:rng.choice([2, 6, 6, 6])]
+        for _ in range(rng.choice([1, 1, 2, 3])):
+            c = rng.randrange(ncli)
+            mine = [(k, v) for k, v in held.items() if k[0] == c]
+            x = rng.random()
+            if x < 0.22 and mine:
+                k, (r, q, t) = rng.choice(mine)            # proper cancellation of ONE observation
+                req("can", c, r, t, q)
+                del held[k]
+            elif x < 0.40:
+                ft, fx = free_tokens(c), free_targets(c)    # Observe=1 that names nothing: another token, an unobserved target
+                if ft and fx:
+                    r, q = rng.choice(fx)
+                    req("can", c, r, rng.choice(ft), q)
+            elif x < 0.48 and mine:
+                k, (r, q, t) = rng.choice(mine)            # refresh
+                req("reg", c, r, t, q, rng.choice(EXTRAS))
+            elif x < 0.62:
+                register_new(c)
+            elif x < 0.70 and mine:
+                ft = free_tokens(c)                         # the same target under another token: replaces that one only
+                if ft:
+                    k, (r, q, t) = rng.choice(mine)
+                    t2 = rng.choice(ft)
+                    req("reg", c, r, t2, q, rng.choice(EXTRAS))
+                    del held[k]
+                    held[(c, O.tok_of(c, t2))] = (r, q, t2)
+            elif x < 0.80:
+                evs.append("ack:%d:%d" % (c, rng.choice([1000, 1000, 1001, 1002])))
+            elif x < 0.90:
+                evs.append("rst:%d:%d" % (c, rng.choice([1000, 1000, 1001, 1002, 1003])))
+                evs.append("io")
+                # which observation the Reset ends depends on the trace: `held` keeps its entry, so that token and target are
+                # simply not used again (an over-approximation of what is registered keeps the registry unambiguous)
+            elif x < 0.95 and mine:
+                k, (r, q, t) = rng.choice(mine)            # the handler refuses a refresh: that observation ends
+                evs.append("err:%d:1" % r)
+                req(rng.choice(["reg", "get"]), c, r, t, q)
+                evs.append("err:%d:0" % r)
+            else:
+                ft = free_tokens(c)
+                if ft:
+                    r, q = rng.choice(targets)
+                    req("get", c, r, rng.choice(ft), q)
+    for r in range(nres):
+        evs += ["chg:%d" % r, "io"]
+    if rng.random() < 0.8:
+        for _ in range(3):
             for c in range(ncli):
                 for k in range(8):
                     evs.append("ack:%d:%d" % (c, 1000 + k))
@@ -417,6 +566,8 @@ def gen_any(rng):
         return gen_block_history(rng)
     if x < BLOCK_SHARE + INTERFERENCE_SHARE:
         return gen_interference_history(rng)
+    if x < BLOCK_SHARE + INTERFERENCE_SHARE + TOKEN_LENGTH_SHARE:
+        return gen_token_length_history(rng)
     return gen_history(rng)
 
 
@@ -548,6 +699,12 @@ def classify(c):
         if len(f) >= 4 and f[3].isdigit() and int(f[3]) >= 128:
             by_tok.setdefault(f[3], set()).add(f[1])
     if any(len(v) > 1 for v in by_tok.values()): k.append("shared-token")
+    # one client used two tokens of which one is a proper prefix of the other (the empty token is a prefix of every token)
+    per_cli = {}
+    for f in reqs:
+        if len(f) >= 4 and f[1].isdigit() and f[3].isdigit():
+            per_cli.setdefault(f[1], set()).add(O.tok_of(int(f[1]), int(f[3])).replace("-", ""))
+    if any(a != b and b.startswith(a) for v in per_cli.values() for a in v for b in v): k.append("prefix-tokens")
     return "+".join(k) or "quiet"
 
 
